@@ -34,6 +34,7 @@ type Rand struct{}
 type Template struct{}
 type URL struct{}
 type Time struct{}
+type A = T
 `
 
 var NamedPlain = []string{"T", "U", "S", "E", "F", "M", "Buffer", "Duration", "Rand", "Template", "URL", "Time"}
@@ -571,3 +572,73 @@ func Judge(w *World, targetPath string, imports map[string]string, cases []Check
 	return
 }
 
+
+// Qualifiers returns the package qualifiers of all selector expressions in a rendered type text, in source order.
+func Qualifiers(src string) ([]string, error) {
+	x, err := parser.ParseExpr(src)
+	if err != nil {
+		return nil, err
+	}
+	var out []string
+	ast.Inspect(x, func(n ast.Node) bool {
+		if s, ok := n.(*ast.SelectorExpr); ok {
+			if id, ok := s.X.(*ast.Ident); ok {
+				out = append(out, id.Name)
+			}
+		}
+		return true
+	})
+	return out, nil
+}
+
+// ParseRefExpr parses gengo's reference syntax path.Name[arg,...] into an Expr (named / basic nodes only).
+func ParseRefExpr(s string) (*Expr, error) {
+	e, rest, err := parseRef(s)
+	if err != nil {
+		return nil, err
+	}
+	if rest != "" {
+		return nil, fmt.Errorf("trailing %q", rest)
+	}
+	return e, nil
+}
+
+func parseRef(s string) (*Expr, string, error) {
+	// head up to '[' ',' ']'
+	i := strings.IndexAny(s, "[,]")
+	head := s
+	rest := ""
+	if i >= 0 {
+		head, rest = s[:i], s[i:]
+	}
+	e := &Expr{Kind: "named", Name: head}
+	if j := strings.LastIndex(head, "."); j > 0 {
+		e.Path, e.Name = head[:j], head[j+1:]
+	} else if types.Universe.Lookup(head) != nil {
+		e = &Expr{Kind: "basic", Name: head}
+		if head == "error" || head == "any" {
+			e.Kind = head
+		}
+	}
+	if strings.HasPrefix(rest, "[") {
+		rest = rest[1:]
+		for {
+			a, r2, err := parseRef(rest)
+			if err != nil {
+				return nil, "", err
+			}
+			e.Args = append(e.Args, a)
+			rest = r2
+			if strings.HasPrefix(rest, ",") {
+				rest = rest[1:]
+				continue
+			}
+			if strings.HasPrefix(rest, "]") {
+				rest = rest[1:]
+				break
+			}
+			return nil, "", fmt.Errorf("unterminated list in %q", s)
+		}
+	}
+	return e, rest, nil
+}
